@@ -23,7 +23,9 @@ CLAIMED = {
         "Gregorian day count for all instants 1901-2099 and all durations (induction over the month loops, "
         "arithmetic on the generated tables). The model is tied to the C code by a differential run on "
         "in-domain instants (month ends, leap days, all kinds) and the calendar oracle (Python datetime) judges "
-        "the implementation's answers directly.",
+        "the implementation's answers directly. Since the repairs D159, D193 and D194 the daemon's wake-up time is proved for every year, the library's "
+        "epoch conversions from 1901 (negative unix times) and the difference of two instants for any two kinds (date, second, millisecond); "
+        "KNOWN FINDING D201: on all-day instants library (end of the day) and daemon (its beginning) differ by design.",
    note="Trusted: Lean kernel, the calendar spec Echse/Spec/Cal.lean, tools/gen.py for the tables, harness hx_cal.c "
         "(instant_to_tstamp is cut textually out of echsd.c). Instants with scale/zone bits and years < 1601 are outside the model; "
         "epoch conversions are claimed from 1970 on.",
@@ -188,7 +190,7 @@ CLAIMED = {
         "fed generated and damaged calendars under byte-wise, every-split-position and random chunkings with ASan; all "
         "chunkings must yield the same instruction dump as the whole input, and lines/verbs are compared with the model.",
    note="Trusted: Lean kernel; harness hx_strm.c; keyword tables regenerated from the .erf files; the meaning of property lines "
-        "(snarf_fld, make_task) is compared through the dump only (C05). Chunkings include the empty push by which echsd ends the input (theorems chunk_independent_eof*, repair D148); the command line tool is run on generated files around its 64 KiB reads (repair D149). KNOWN FINDINGS D17 (backslash escapes), D18d (lines whose content or raw bytes reach the 1 KiB stash).",
+        "(snarf_fld, make_task) is compared through the dump only (C05). Chunkings include the empty push by which echsd ends the input (theorems chunk_independent_eof*, repair D148); the command line tool is run on generated files around its 64 KiB reads (repair D149). Chunk independence is proved and checked for every input without backslash, over-long lines included (a line that does not fit the stash is passed over as a whole since the repair of D18d). KNOWN FINDING D17 (backslash escapes).",
    technique="Lean 4 proof (invariant over the stash + induction over the partition) + differential chunking check with a source hook",
    design="§5 C10"),
  "C17": dict(
